@@ -171,6 +171,7 @@ func runC10(run *Run, replay string) {
 		n = 4000
 	}
 	originCases(run, rand.New(rand.NewSource(subSeed(run.Res.Seed, 424242))), n)
+	exprOriginCases(run, rand.New(rand.NewSource(subSeed(run.Res.Seed, 434343))), n*10)
 	for i := 0; i < n; i++ {
 		r := rand.New(rand.NewSource(subSeed(run.Res.Seed, i)))
 		sc, cfg := tfScenario(r)
